@@ -223,15 +223,21 @@ static void c10dec_snappy(int scale) {
       static const uint8_t short_out[] = {9, 0x0C, 'a', 'b', 'c', 'd', 0x01, 0x04};           /* declares 9, produces 8 */
       static const uint8_t long_out[] = {5, 0x0C, 'a', 'b', 'c', 'd', 0x01, 0x04};            /* declares 5, produces 8 */
       static const uint8_t bad_pre[] = {0xFF, 0xFF, 0xFF, 0xFF, 0xFF, 0x01};
+      static const uint8_t pre_over1[] = {0x85, 0x80, 0x80, 0x80, 0x70, 0x10, 'a', 'b', 'c', 'd', 'e'};   /* preamble 5 + 7<<32: does not fit 32 bits */
+      static const uint8_t pre_over2[] = {0x80, 0x80, 0x80, 0x80, 0x10};                                    /* 2^32, no elements */
+      static const uint8_t extra_lit[] = {4, 0x0C, 'a', 'b', 'c', 'd', 0x00, 'x'};                           /* a further literal after the declared length is complete */
+      static const uint8_t extra_tag[] = {4, 0x0C, 'a', 'b', 'c', 'd', 0x01};                                /* a stray copy tag after the end */
+      static const uint8_t extra_empty[] = {0, 0x00, 'x'};                                                   /* declared length 0 followed by an element */
       struct { const uint8_t* p; size_t n; size_t cap; const char* why; } H[] = {
         {off0_c1, sizeof off0_c1, 8, "hand:offset-zero-copy1"}, {off0_c2, sizeof off0_c2, 8, "hand:offset-zero-copy2"}, {off0_c4, sizeof off0_c4, 8, "hand:offset-zero-copy4"},
         {beyond, sizeof beyond, 8, "hand:offset-beyond-output"}, {trunc_c1, sizeof trunc_c1, 8, "hand:copy1-tag-last-byte"}, {trunc_c2, sizeof trunc_c2, 8, "hand:copy2-truncated"},
-        {trunc_lit, sizeof trunc_lit, 8, "hand:literal-truncated"}, {short_out, sizeof short_out, 9, "hand:declared>produced"}, {long_out, sizeof long_out, 5, "hand:declared<produced"}, {bad_pre, sizeof bad_pre, 16, "hand:bad-preamble"} };
+        {trunc_lit, sizeof trunc_lit, 8, "hand:literal-truncated"}, {short_out, sizeof short_out, 9, "hand:declared>produced"}, {long_out, sizeof long_out, 5, "hand:declared<produced"}, {bad_pre, sizeof bad_pre, 16, "hand:bad-preamble"},
+        {pre_over1, sizeof pre_over1, 16, "hand:preamble-exceeds-32-bits"}, {pre_over2, sizeof pre_over2, 16, "hand:preamble-exceeds-32-bits"}, {extra_lit, sizeof extra_lit, 16, "hand:elements-after-declared-length"}, {extra_tag, sizeof extra_tag, 16, "hand:elements-after-declared-length"}, {extra_empty, sizeof extra_empty, 16, "hand:elements-after-declared-length"} };
       for (size_t i = 0; i < sizeof H / sizeof *H; i++) { if (snappy_validate_compressed_buffer((const char*)H[i].p, H[i].n) == SNAPPY_OK || ref_snappy_decode(H[i].p, H[i].n, &tmp) == RS_OK) { fprintf(stderr, "harness: oracle accepts hand-built invalid stream %s\n", H[i].why); exit(2); }
           v_case(v_hash(H[i].p, H[i].n, 5)); feed_carquet(SNAPPY, H[i].p, H[i].n, NULL, H[i].cap, 0, 1, H[i].why); } }
     v_count_n("gen_literal_form0", gs.lit_forms[0]); v_count_n("gen_literal_form1", gs.lit_forms[1]); v_count_n("gen_literal_form2", gs.lit_forms[2]); v_count_n("gen_literal_form3", gs.lit_forms[3]); v_count_n("gen_literal_form4", gs.lit_forms[4]);
     v_count_n("gen_copy1", gs.copy1); v_count_n("gen_copy2", gs.copy2); v_count_n("gen_copy4", gs.copy4); v_count_n("gen_overlapping_copies", gs.overlap); v_count_n("gen_offset1", gs.offset1); v_count_n("gen_nonminimal_literal_len", gs.nonminimal);
-    v_sample("c10dec snappy: %lld grammar-built streams (literal forms 0..4 bytes, copy-1/2/4, overlap, offset 1..produced) + 6 classified mutants each + 10 hand-built invalid streams", (long long)cases);
+    v_sample("c10dec snappy: %lld grammar-built streams (literal forms 0..4 bytes, copy-1/2/4, overlap, offset 1..produced) + 6 classified mutants each + 15 hand-built invalid streams", (long long)cases);
     vb_free(&st); vb_free(&out); vb_free(&tmp);
 }
 
